@@ -35,7 +35,9 @@ func checkC05(c *Ctx, r *Result, tier string) {
 			continue
 		}
 		// the ECAL function object: its Run parents a scope
-		parents := callSites(fn, func(name string, _ ssa.CallInstruction) bool { return strings.HasSuffix(name, "scope.SetParentOfScope") })
+		parents := callSites(fn, func(name string, _ ssa.CallInstruction) bool {
+			return strings.HasSuffix(name, "scope.SetParentOfScope")
+		})
 		if len(parents) == 0 {
 			continue
 		}
